@@ -24,7 +24,7 @@ def run(ck):
     ck.distinct += s["records"]
     ck.extra["characters_judged"] = s["chars"]
     ck.extra["marked_loads_judged"] = s["marked"]
-    j = props.judge(ck, "Trace_Pos", out, timeout=5400)
+    j = props.judge(ck, "Trace_Pos", out, timeout=5400, chunk=40000)
     ck.traces += j.judged
     if j.rejects:
         recs = read_ndjson(out)
